@@ -50,6 +50,10 @@ type Strategy interface {
 
 type stopSignal struct{}
 
+// IsStopSignal tells whether a recovered value is the scheduler's own unwinding signal (harness
+// code that recovers panics of the code under test must re-panic it).
+func IsStopSignal(r any) bool { _, ok := r.(stopSignal); return ok }
+
 type PanicInfo struct {
 	Task  string `json:"task"`
 	Value string `json:"value"`
